@@ -133,7 +133,7 @@ def gen_case(rnd, model=None, dynamics=None, **kw):
     case = {'model': model, 'dynamics': dynamics, 'graph': gen_graph(rnd, **kw), 'pv': gen_params(rnd, dynamics),
             'seed': rnd.randrange(1 << 30), 'inst': rnd.choice([None, None, 'a']), 'seq': rnd.random() < 0.3,
             'maxtime': rnd.choice([2.0, 3.0, 4.0]) if dynamics == 'synchronous' else rnd.choice([1.5, 3.0, 6.0]),
-            'vacc': []}
+            'vacc': [], 'prerun': rnd.random() < 0.3}
     if model == 'SIvR':
         case['vacc'] = [n for n in case['graph']['nodes'] if rnd.random() < 0.5]
     return case
@@ -247,7 +247,8 @@ def run_case(case):
             else:
                 lspecs.append([nm, 'plain'])
         if model == 'SIR_VariableInfection':
-            proc.infect = wrap(proc.locus(ep.SIR.SI), proc.infect, ep.SIR.INFECTED, True)
+            orig_infect = state.setdefault('orig_infect', proc.infect)
+            proc.infect = wrap(proc.locus(ep.SIR.SI), orig_infect, ep.SIR.INFECTED, True)
         for n in case.get('vacc', []):
             proc.vaccinateNode(0.0, n)
         snaps.append({'t': 0.0, 'name': '<start>', 'e': None, 'pi': -1, 'comps': comps(),
@@ -287,6 +288,22 @@ def run_case(case):
     dyn.simulationEnded = ended
 
     import epydemic.stochasticdynamics as sd
+    if case.get('prerun'):
+        # an earlier run on the SAME experiment object (other parameters, other random choices): by C10 it must
+        # not influence the observed run
+        pre = dict(params)
+        install(Oracle(seed=case['seed'] + 1))
+        try:
+            dyn.set(pre).run(fatal=True)
+        except Exception:
+            pass
+        del entries[:]
+        del snaps[:]
+        registration.clear()
+        del lspecs[:]
+        final.clear()
+        state['posted'] = 0
+        state['started'] = False
     install(orc)
     kscript.install_draw_recorder(rec)
     saved_math = sd.math
